@@ -13,7 +13,7 @@
 use super::connector::{state_tuple, MutVar};
 use super::*;
 
-fn position_world(src: &Path) -> R<World> {
+pub(super) fn position_world(src: &Path) -> R<World> {
     let position = parse_file(src, "position.rs")?;
     let mut w = World::default();
     for (file, tname) in GEOMETRY_TYPES {
